@@ -17,6 +17,10 @@ CTransactionRef parse_tx(const char* p) {
     CDataStream ss(txData, SER_DISK, 0);
     CMutableTransaction mtx;
     UnserializeTransaction(mtx, ss);
+    if (!ss.empty()) {
+        fprintf(stderr, "transaction hex has %zu bytes of trailing data\n", ss.size());
+        return nullptr;
+    }
     CTransactionRef tx = MakeTransactionRef(CTransaction(mtx));
     return tx;
 }
